@@ -184,7 +184,7 @@ class Builder:
 
     def _new(self):
         sid = "%s-%s-%d" % (self.tag, self.conc_name, len(self.scenarios))
-        self._cur = dict(id=sid, world=dict(nkeys=K, admin_ips=[ADMIN_IP]), conc=self.conc, prior=[], ops=[])
+        self._cur = dict(id=sid, world=dict(nkeys=K, admin_ips=[ADMIN_IP], dist=3), conc=self.conc, prior=[], ops=[])
         self._lanes = []
         self.scenarios.append(self._cur)
         self.expect[sid] = dict(ops={}, final={}, floors=[])
@@ -687,7 +687,7 @@ def run(prop, tier, seed):
                             pops.append(dict(id="p%dk%dj%db" % (pi, k, j), kind="att", lane=k + 1, by=by, ents=[dict(k=k, s=j, t=j + 1, root="B")]))
                             if j >= 2 and j % 3 == 2:   # surrounded by what the key has signed (j-1 -> j ... ): source below, target below
                                 pops.append(dict(id="p%dk%dj%dc" % (pi, k, j), kind="att", lane=k + 1, by=by, ents=[dict(k=k, s=j - 2, t=j + 2 if j + 2 <= steps else j + 1, root="C")]))
-                par_scs.append(dict(id="%s-parclients-%d" % (prop, pi), world=dict(nkeys=nk), conc=pconc, ops=[dict(id="par", kind="par", gate=False, ops=pops)]))
+                par_scs.append(dict(id="%s-parclients-%d" % (prop, pi), world=dict(nkeys=nk, dist=3), conc=pconc, ops=[dict(id="par", kind="par", gate=False, ops=pops)]))
             pev, prc, perr = run_driver_parallel(par_scs, wd, tag="parclients", timeout=900) if len(par_scs) > 8 else run_driver(par_scs, wd, tag="parclients", timeout=900)
             if prc != 0:
                 raise Inconclusive("parallel clients: driver exited %s: %s" % (prc, perr[-300:]))
@@ -723,7 +723,7 @@ def run(prop, tier, seed):
                     for x_ in extra:
                         meta_[x_["id"]] = dict(wf=True, ip="none")
                 sid_ = "C09-overlap-%d" % ci
-                cscs.append(dict(id=sid_, world=dict(nkeys=nk), conc=cconc, ops=ops))
+                cscs.append(dict(id=sid_, world=dict(nkeys=nk, dist=3), conc=cconc, ops=ops))
                 cmeta[sid_] = meta_
             cev, cdead, cstuck = concfamily.drive(cscs, wd, tag="overlap")
             for sid_, evs_ in cdead:
